@@ -210,4 +210,55 @@ theorem iter_length (E : Nat → Sig → Env) (hE : EnvLen E) (s : Rat) (x : Sig
         simp [hu, hl, this]
       · cases hk
 
+theorem run_spec' (E : Nat → Sig → Env) (o : ImfOpts) (x : Sig) : Spec E o x (run E o x) :=
+  loop_spec E o x (budget o) 0 x rfl (fun j hj => absurd hj (Nat.not_lt_zero j)) (by omega)
+
+/-- flag cleared (no energy threshold) ⇒ the input is returned unmodified and has an undefined envelope -/
+theorem flag_false_unmodified (E : Nat → Sig → Env) (D : Sig → Sig → Rat) (o : ImfOpts) (x c : Sig)
+    (he : o.energyThresh = none) (h : getNextImfIx E D o x = .imf c false) :
+    c = x ∧ ((E 0 x).1 = none ∨ (E 0 x).2 = none) := by
+  have hs := run_spec' E o x
+  unfold getNextImfIx at h
+  cases hr : run E o x with
+  | stopped k c' => rw [hr] at h; simp [finish, energyFlag, he] at h
+  | noExtrema k g =>
+    rw [hr] at h hs
+    simp only [finish, energyFlag, he, ImfResult.imf.injEq] at h
+    obtain ⟨rfl, hk⟩ := h
+    have hk0 : k = 0 := by simpa using hk
+    subst hk0
+    obtain ⟨_, _, h1, h2⟩ := hs
+    simp only [iter, Option.some.injEq] at h1
+    subst h1
+    exact ⟨rfl, h2⟩
+  | noConverge => rw [hr] at h; simp [finish] at h
+
+/-- every returned component is the first fired iterate (full mean removed) or the first iterate
+    without envelopes -/
+theorem imf_cases (E : Nat → Sig → Env) (D : Sig → Sig → Rat) (o : ImfOpts) (x c : Sig) (f : Bool)
+    (h : getNextImfIx E D o x = .imf c f) :
+    ∃ k, k < budget o ∧ (∀ j, j < k → Continues E o x j) ∧ (Fires E o x k c ∨ Vanishes E o x k c) := by
+  have hs := run_spec' E o x
+  unfold getNextImfIx at h
+  cases hr : run E o x with
+  | stopped k c' =>
+    rw [hr] at h hs; simp only [finish, ImfResult.imf.injEq] at h
+    obtain ⟨rfl, _⟩ := h
+    exact ⟨k, hs.1, hs.2.1, Or.inl hs.2.2⟩
+  | noExtrema k g =>
+    rw [hr] at h hs; simp only [finish, ImfResult.imf.injEq] at h
+    obtain ⟨rfl, _⟩ := h
+    exact ⟨k, hs.1, hs.2.1, Or.inr hs.2.2⟩
+  | noConverge => rw [hr] at h; simp [finish] at h
+
+theorem imf_length (E : Nat → Sig → Env) (hE : EnvLen E) (D : Sig → Sig → Rat) (o : ImfOpts)
+    (x c : Sig) (f : Bool) (h : getNextImfIx E D o x = .imf c f) : c.length = x.length := by
+  obtain ⟨k, _, _, hfv⟩ := imf_cases E D o x c f h
+  rcases hfv with ⟨g, U, L, h1, h2, _, h4⟩ | ⟨h1, _⟩
+  · have hg := iter_length E hE o.step x k g h1
+    obtain ⟨hu, hl⟩ := hE k g U L h2
+    subst h4
+    simp [hu, hl, hg]
+  · exact iter_length E hE o.step x k c h1
+
 end Sift
